@@ -24,6 +24,7 @@ def children(S, pattern, kind="tx", chunk=False):
         cp, cs, ce = chunk_parent(S)
         S.assume(cs < ce)
         extra = dict(parent_or_seq_chunk_parent=cp)
+        S._last_chunk = (cp, cs, ce)
     zero = S.enum_const(FRAME, "ZERO")
     for j, coding in enumerate(pattern):
         s, e = S.int(f"s{j}"), S.int(f"e{j}")
@@ -264,7 +265,137 @@ class FeatureCollectionAggregates(Case):
         return [o(r[0]), o(r[1]), o(r[2]), list(r[3]), getattr(r[4], "feature_id", None), obs_loc(r[5])[:2], o(r[6])]
 
 
-CASES = [FindPrimary((True, True)), FindPrimary((True, False)), FindPrimary((False, False)),
+class AggregatesOnChunk(Case):
+    """gene / feature-collection aggregates when the children AND the collection sit on a sequence chunk with ANY
+    window (cutting children, missing them): span, merged transcript / merged feature and merged CDS are functions of
+    the children's CHROMOSOME blocks - the chunk changes none of them."""
+    props = ("C20", "C07")
+    shard_depth = 6
+
+    def __init__(self, kind):
+        self.kind = kind
+        self.tier = "thorough" if kind == "gene" else "quick"  # the gene variant forks ~330 paths
+        if kind == "gene":
+            self.func = GENE + ".get_merged_transcript"
+            self.module = "gene.gene"
+            self.name = "GeneInterval aggregates[cc, children and gene on a sequence chunk with any window]"
+            self.call = ("(lambda g: (g.start, g.end, g.get_merged_transcript().chromosome_location, "
+                         "g.get_merged_cds().chromosome_location))(GeneInterval(kids, gene_type=Biotype.protein_coding, "
+                         "parent_or_seq_chunk_parent=cp))")
+        else:
+            self.func = FCOL + ".get_merged_feature"
+            self.module = "gene.feature"
+            self.name = "FeatureIntervalCollection aggregates[2 features, children and collection on a sequence chunk with any window]"
+            self.call = ("(lambda c: (c.start, c.end, c.get_merged_feature().chromosome_location, None))"
+                         "(FeatureIntervalCollection(kids, parent_or_seq_chunk_parent=cp))")
+        # a collection whose SPAN has no base on the chunk has an empty chunk-relative location: the merged feature
+        # (built on the strand of that location) is then refused with the documented EmptyLocationException
+        _off = lambda i: Not(Max(_min([c.s for c in i.info]), i.cs) < Min(_max([c.e for c in i.info]), i.ce))  # noqa
+        self.raises = {"ValidationException": lambda i: count_true([c.flag for c in i.info]) >= 2,
+                       "EmptyLocationException": lambda i: And(count_true([c.flag for c in i.info]) < 2, _off(i))}
+        self.ensures = {
+            "span-is-min-start-max-end": lambda i, r: And(r[0] == _min([c.s for c in i.info]), r[1] == _max([c.e for c in i.info])),
+            "merged-is-union-of-chromosome-blocks": lambda i, r: Iff(covers_pos(r[2], i.p), Or(*[And(c.s <= i.p, i.p < c.e) for c in i.info])),
+            "merged-cds-is-union-of-cds-blocks": lambda i, r: True if r[3] is None else Iff(
+                covers_pos(r[3], i.p), Or(*[And(c.s <= i.p, i.p < c.s + c.cds) for c in i.info if c.coding])),
+        }
+
+    def inputs(self, S):
+        pattern = (True, True) if self.kind == "gene" else (False, False)
+        kids, info, strand = children(S, pattern, "tx" if self.kind == "gene" else "feature", chunk=True)
+        ns = NS(kids=kids, info=info, p=S.int("p"), cp=S._last_chunk[0], cs=S._last_chunk[1], ce=S._last_chunk[2])
+        if self.kind == "gene":
+            ns.GeneInterval = S.cls(GENE)
+        return ns
+
+    def samples(self, rng):
+        from .c04_liftover import sample_chunk
+        d = sample_children(rng, (True, True) if self.kind == "gene" else (False, False))
+        d["p"] = rng.randint(0, 12)
+        d.update(sample_chunk(rng, hi=6))
+        if d["chunk_end"] == d["chunk_start"]:
+            d["chunk_end"] += 1
+            d["chunk_seq"] = "A"
+        return d
+
+    def observe(self, r):
+        from pyvc.check import default_observe as o
+        from .c02_single import obs_loc
+        return [o(r[0]), o(r[1]), obs_loc(r[2])[:2], None if r[3] is None else obs_loc(r[3])[:2]]
+
+
+class GenePrimarySequences(Case):
+    """the primary-transcript accessors of a gene are the stated functions of the primary child: get_primary_cds_sequence
+    is the IN-FRAME coding sequence of the primary transcript (start frame f: 3 * floor((L - f) / 3) bases, base k = the
+    chromosome base of the CDS strand at CDS position f + k - not the raw CDS span), get_primary_transcript_sequence the
+    whole spliced exon, get_primary_cds the child's CDS object.  One-exon primary transcript whose CDS is any
+    sub-interval of the exon, any start frame, on a sequence chunk of either strand containing it, symbolic text."""
+    props = ("C20", "C05")
+    func = GENE + ".get_primary_cds_sequence"
+    module = "gene.gene"
+    shard_depth = 5
+    name = "GeneInterval primary accessors[coding primary transcript, any start frame, chunk of either strand, symbolic text]"
+    call = ("(lambda g: (lambda c: (len(c), c, len(g.get_primary_transcript_sequence()), "
+            "g.get_primary_cds() is g.transcripts[0].cds, g.get_primary_transcript() is g.transcripts[0], "
+            "g.get_primary_feature() is g.transcripts[0]))(g.get_primary_cds_sequence()))"
+            "(GeneInterval([tx], parent_or_seq_chunk_parent=cp))")
+    ensures = {
+        "cds-sequence-is-the-in-frame-coding-sequence": lambda i, r: And(r[0] == 3 * Div(i.L - i.f, 3), Mod(r[0], 3) == 0),
+        "k-th-base-is-the-chromosome-base-at-cds-position-f-plus-k": lambda i, r: Implies(
+            And(0 <= i.k, i.k < r[0]), _tchar(r[1], i.k) == _chrom_base(i, _pos(i, i.f + i.k))),
+        "transcript-sequence-is-the-whole-exon": lambda i, r: r[2] == i.e - i.s,
+        "primary-objects-are-the-child's": lambda i, r: And(r[3] is True, r[4] is True, r[5] is True),
+    }
+
+    def inputs(self, S):
+        from .c04_liftover import chunk_parent_stranded
+        s, e, u, v = S.int("s"), S.int("e"), S.int("u"), S.int("v")
+        strand = strand_of(S, "strand")
+        f = S.enum(FRAME, "frame")
+        S.assume(Not(enum_name_is(f, "NONE")))
+        if S.mode == "sym":
+            f = S.e.enum_concretize(f)
+        fv = f.value if not hasattr(f, "members") else f.members[f.idx][1]
+        cp, cs, ce, minus = chunk_parent_stranded(S)
+        S.assume(And(0 <= cs, cs <= s, 0 <= u, 0 <= v, s + u < e - v, e <= ce, (e - v) - (s + u) - fv >= 3))
+        tx = S.new(TRANSCRIPT, [s], [e], strand, cds_starts=[s + u], cds_ends=[e - v], cds_frames=[f], is_primary_tx=S.bool("primary"),
+                   parent_or_seq_chunk_parent=cp)
+        plus = (strand.members[strand.idx][0] if hasattr(strand, "members") else strand.name) == "PLUS"
+        return NS(tx=tx, cp=cp, s=s, e=e, f=fv, L=(e - v) - (s + u), k=S.int("k"), starts=[s + u], ends=[e - v], plus=plus,
+                  cs=cs, ce=ce, minus=minus, text=S.symstr("chunk_seq"), GeneInterval=S.cls(GENE))
+
+    def samples(self, rng):
+        s = rng.randint(2, 8)
+        e = s + rng.randint(7, 16)
+        u, v = rng.randint(0, 2), rng.randint(0, 2)
+        cs, ce = rng.randint(0, s), e + rng.randint(0, 3)
+        return dict(s=s, e=e, u=u, v=v, strand=rng.choice(["PLUS", "MINUS"]), frame=rng.choice(["ZERO", "ONE", "TWO"]),
+                    primary=rng.choice([True, False]), k=rng.randint(0, 9), chunk_start=cs, chunk_end=ce,
+                    chunk_strand=rng.choice(["PLUS", "MINUS"]),
+                    chunk_seq="".join(rng.choice("ACGT") for _ in range(ce - cs)))
+
+    def observe(self, r):
+        from pyvc.check import default_observe as o
+        text = r[1].sequence if hasattr(r[1], "attrs") else str(r[1])
+        return [o(r[0]), text if isinstance(text, str) else None, o(r[2]), r[3], r[4], r[5]]
+
+
+def _tchar(seq, k):
+    from .c05_cds import _tchar as t
+    return t(seq, k)
+
+
+def _pos(i, t):
+    from .c03_sequence import _pos as p
+    return p(i, t)
+
+
+def _chrom_base(i, p):
+    from .c03_sequence import _chrom_base as cb
+    return cb(i, p)
+
+
+CASES = [GenePrimarySequences(), AggregatesOnChunk("gene"), AggregatesOnChunk("features"), FindPrimary((True, True)), FindPrimary((True, False)), FindPrimary((False, False)),
          FindPrimary((True, True, True)), FindPrimary((False, False), "feature"),
          GeneAggregates((True, True)), GeneAggregates((True, False)), FeatureCollectionAggregates(),
          FindPrimary((True, True), chunk=True), FindPrimary((True, False), chunk=True), SizeKeys(1), SizeKeys(2)]
